@@ -1,4 +1,5 @@
 import OnetVerif.Model.Util
+import OnetVerif.Model.C09Entries
 import OnetVerif.Generated
 /-! Model for property C09 — peer failures are contained, reported to senders, and recoverable
 (core-only).
@@ -16,11 +17,14 @@ The surviving router and its environment:
 * the send entry points offered to services and protocols and how each hands the error on:
   `context.go:60-68`, `overlay.go:602-636`, `treenode.go:150-176, 764-847`.
 
-Wall-clock time is not modelled: a dial attempt is a step.
+Wall-clock time is not modelled: a dial attempt is a step and a pause between two attempts
+(`WaitRetry`) is a step; both are counted (`dials`, `waits`), so that the time a send can take is
+bounded by `dials · (time-out of one attempt) + waits · WaitRetry`.
+
+The send entry points themselves are in `Model/C09Entries.lean`, over an arbitrary router-level
+send; `rsend` below plugs this router in.
 -/
 namespace C09
-
-abbrev Peer := Nat
 
 inductive Transport where
   | tcp | loc
@@ -31,6 +35,14 @@ inductive Transport where
 `NewLocalConnWithManager`, which loops `MaxRetryConnect` times itself. -/
 def dialsPerConnect (M : Nat) : Transport → Nat
   | .tcp => M
+  | .loc => M * M
+
+/-- pauses of `WaitRetry` during one `host.Connect` whose every attempt fails: `NewTCPConn` /
+`NewTLSConn` sleep between two attempts (`if i < MaxRetryConnect`), i.e. `MaxRetryConnect - 1`
+times; `NewLocalConnWithManager` likewise, and `LocalHost.Connect` waits after every one of its
+`MaxRetryConnect` rounds (also the last): `M·(M-1) + M = M·M`. -/
+def waitsPerConnect (M : Nat) : Transport → Nat
+  | .tcp => M - 1
   | .loc => M * M
 
 /-- a registered connection: its number, the peer, and whether the other end still exists
@@ -44,6 +56,8 @@ structure Conn where
 structure St where
   /-- maximal number of dial attempts per connect on this transport -/
   dpc : Nat := 5
+  /-- pauses (`WaitRetry`) of a connect whose every attempt fails -/
+  wpc : Nat := 4
   /-- `r.connections`, all peers' slices in one list; the relative order of one peer's entries is
   the order of its slice -/
   conns : List Conn := []
@@ -58,6 +72,8 @@ structure St where
   calls : List (Nat × Peer) := []
   /-- ghost: dial attempts so far -/
   dials : Nat := 0
+  /-- ghost: pauses between dial attempts so far -/
+  waits : Nat := 0
   deriving DecidableEq, Repr
 
 /-- `r.connection(id)`: the first registered connection of that peer -/
@@ -69,17 +85,12 @@ def connect (s : St) (p : Peer) : St × Option Conn :=
   if s.up.contains p then
     let c : Conn := { id := s.next, peer := p, alive := true }
     ({ s with conns := s.conns ++ [c], next := s.next + 1, dials := s.dials + 1 }, some c)
-  else ({ s with dials := s.dials + s.dpc }, none)
+  else ({ s with dials := s.dials + s.dpc, waits := s.waits + s.wpc }, none)
 
 /-- `c.Send(msg)`. On a stale connection the write fails — or, on TCP, may be accepted by the local
 kernel before the reset arrives (`staleOk`, chosen by the environment; the message is lost). -/
 def sendOn (s : St) (c : Conn) (m : Nat) (staleOk : Bool) : St × Bool :=
   if c.alive then ({ s with delivered := s.delivered ++ [(c.peer, m)] }, true) else (s, staleOk)
-
-inductive Res where
-  | ok
-  | err
-  deriving DecidableEq, Repr
 
 /-- the loop `for _, msg := range msgs` of `Router.Send` (router.go:336-353). Note that the
 connection opened by the retry is a new local variable: the next message starts on `c` again. -/
@@ -121,8 +132,14 @@ inductive Act where
   | peerDown (p : Peer)
   /-- a (new) process listens at the peer's address; old connections stay dead -/
   | peerUp (p : Peer)
-  /-- the receive loop of connection `cid` gets a fatal error (closed / EOF / timeout / unknown) -/
+  /-- the receive loop of connection `cid` gets a fatal error (closed / EOF / timeout / unknown):
+  `report` followed at once by `remove` -/
   | detect (cid : Nat)
+  /-- first half of `detect`: `triggerConnectionErrorHandlers(remote)` — the handlers run in the
+  receive loop's goroutine, with no lock of the router held, the connection still in the table -/
+  | report (cid : Nat)
+  /-- second half: the deferred `c.Close()`, `removeConnection(remote, c)` -/
+  | remove (cid : Nat)
   /-- the peer opens a connection to us -/
   | accept (p : Peer)
   /-- `AddErrorHandler` -/
@@ -142,6 +159,14 @@ def step (s : St) : Act → St × Res
     | some c =>
       -- triggerConnectionErrorHandlers(remote), then the deferred removeConnection(remote, c)
       ({ s with calls := s.calls ++ s.handlers.map (·, c.peer), conns := removeSwap s.conns c }, .ok)
+  | .report cid =>
+    match s.conns.find? (·.id == cid) with
+    | none => (s, .ok)
+    | some c => ({ s with calls := s.calls ++ s.handlers.map (·, c.peer) }, .ok)
+  | .remove cid =>
+    match s.conns.find? (·.id == cid) with
+    | none => (s, .ok)
+    | some c => ({ s with conns := removeSwap s.conns c }, .ok)
   | .accept p =>
     if s.up.contains p then
       ({ s with conns := s.conns ++ [{ id := s.next, peer := p, alive := true }], next := s.next + 1 }, .ok)
@@ -152,6 +177,10 @@ def step (s : St) : Act → St × Res
 def run (s : St) : List Act → St
   | [] => s
   | a :: l => run (step s a).1 l
+
+/-- this router as the router-level send under the entry points of `Model/C09Entries.lean`:
+`n` messages in one `Router.Send`; a write on a stale connection fails -/
+def rsend : RS St := fun s d n => send s d (List.replicate n 0) false
 
 /-! ### the send entry points and how each passes the error on -/
 
@@ -188,7 +217,15 @@ def entry (e : Entry) (dests : List Peer) (res : Peer → Res) : Nat × List Pee
 /-! ### line-protocol driver -/
 namespace Drv
 
-abbrev State := St
+structure State where
+  core : St := {}
+  /-- error handlers that use the router they are registered with: handler number ↦ the peer it
+  sends a notice to (one `Router.Send`) whenever it is called -/
+  rh : List (Nat × Peer) := []
+  /-- tree-node instances of the survivor that live across operations, by number -/
+  tnis : List (Nat × Tni) := []
+  deriving Repr
+
 def init : State := {}
 
 def showRes : Res → String
@@ -204,90 +241,174 @@ def parseEntry : String → Option Entry
   | "parallel" | "multicast" | "broadcast" => some .sendToAll
   | _ => none
 
-/-- an entry point over the current state: every destination tried gets one `Router.Send` of
-`n` messages (stale writes fail) -/
-def runEntry (s : St) (e : Entry) (dests : List Peer) (n : Nat) : St × Nat × Nat :=
-  -- sequential evaluation in destination order; the order does not matter for distinct peers
-  let rec go (s : St) (errs del : Nat) : List Peer → St × Nat × Nat
-    | [] => (s, errs, del)
-    | d :: l =>
-      let before := s.delivered.length
-      let r := send s d (List.replicate n 0) false
-      let errs' := if r.2 = .err then errs + 1 else errs
-      let del' := del + (r.1.delivered.length - before)
-      if r.2 = .err && e = .sendToChildren then (r.1, errs', del') else go r.1 errs' del' l
-  go s 0 0 dests
+/-- `<ok|err:k> delivered=<d>` -/
+def answer (before : St) (after : St) (errs : Nat) : String :=
+  (if errs = 0 then "ok" else s!"err:{errs}") ++ s!" delivered={after.delivered.length - before.delivered.length}"
+
+/-- a send entry point called on a fresh tree-node instance whose children (parent, for
+`parent`) are the destinations; `none`: the harness does not make this call -/
+def runEntry (s : St) (e : String) (dests : List Peer) (n : Nat) : Option (St × Nat) :=
+  match e, dests with
+  | "router", [d] => let r := serverSend rsend s d n; some (r.1, r.2.n)
+  | "raw", [d] => if n = 1 then (let r := ctxSendRaw rsend s d; some (r.1, r.2.n)) else none
+  | "sendto", [d] => if n = 1 then (let o := sendTo rsend s { children := [d] } (some d); some (o.st, o.errs)) else none
+  | "parent", [] => if n = 1 then (let o := sendToParent rsend s {}; some (o.st, o.errs)) else none
+  | "parent", [d] => if n = 1 then (let o := sendToParent rsend s { parent := some d }; some (o.st, o.errs)) else none
+  | "children", ds => if n = 1 then (let o := sendToChildren rsend s { children := ds }; some (o.st, o.errs)) else none
+  -- the goroutines in the order of the children; any other order gives the same answer
+  -- (`c09_parallel_any_schedule`)
+  | "parallel", ds => if n = 1 then (let o := sendToChildrenInParallel rsend s { children := ds } ds; some (o.st, o.errs)) else none
+  | "multicast", ds => if n = 1 then (let o := multicast rsend s { children := ds } ds; some (o.st, o.errs)) else none
+  | "broadcast", ds => if n = 1 then (let o := broadcast rsend s { children := ds }; some (o.st, o.errs)) else none
+  | _, _ => none
+
+/-- the peer stops (or goes silent) and every connection with it is detected, one after the
+other: the handlers are told; those that use the router send their notice — the connection is
+still in the table, no lock is held —; then the connection is removed -/
+def lose (d : State) (p : Peer) : State × String :=
+  let s := d.core
+  let s1 := (C09.step s (.peerDown p)).1
+  let ids := (s1.conns.filter (·.peer == p)).map (·.id)
+  let s2 := ids.foldl (fun st cid =>
+    let st := (C09.step st (.report cid)).1
+    let st := st.handlers.foldl (fun st h =>
+      match d.rh.lookup h with
+      | some q => (C09.step st (.send q [0] false)).1
+      | none => st) st
+    (C09.step st (.remove cid)).1) s1
+  let newCalls := s2.calls.drop s.calls.length
+  let told := if newCalls.isEmpty then "-" else ",".intercalate (newCalls.map fun (h, q) => s!"{h}>{q}")
+  ({ d with core := { s2 with calls := [] } },
+    if d.rh.isEmpty then told else told ++ s!" notices={s2.delivered.length - s.delivered.length}")
+
+def setTni (d : State) (k : Nat) (t : Tni) : State :=
+  { d with tnis := (k, t) :: d.tnis.filter (·.1 != k) }
 
 /--
-* `open <tcp|local> <peers up, comma separated>` — fresh survivor; the named peers listen
+* `open <tcp|tls|local> <peers up, comma separated>` — fresh survivor; the named peers listen
 * `handler <h>` — register error handler number h
-* `send <entry> <dests> <n>` — the entry point towards these peers, n messages per `Router.Send`;
-  answer `<ok|err:k> delivered=<d>`
+* `rhandler <h> <q>` — register error handler number h that, when called, sends one message to
+  peer q through the router it is registered with
+* `send <entry> <dests> <n>` — the entry point towards these peers, n messages per `Router.Send`
+  (n = 0 only for `router`: "need to send at least one message"); answer `<ok|err:k> delivered=<d>`
+* `selfsend <n>` — `Router.Send` to the own identity: dispatched directly, never fails
 * `par <entry> <dead peers> <healthy peer>` — one send per dead peer through that entry point, all
   running at the same time, and meanwhile a router send to the healthy peer. Sends are atomic steps
   of the model and sends about different peers commute (`c09_contained`), so the answer is that of
   any sequential order: `err:<k>|<answer of the healthy send>`
 * `down <p>` — the peer stops and every connection with it is detected; answer: the handler
-  invocations `h>p` in order
+  invocations `h>p` in order (and ` notices=<n>` delivered by handlers that use the router)
 * `freeze <p>` — the peer goes silent without closing anything (power loss, partition): the read
   time-out of every connection with it is what reports it; same answer as `down`
+* `hang <p>` — the peer's process stops and its address keeps accepting connections that nobody
+  answers (TLS: the handshake never completes, every dial attempt ends at the dial time-out);
+  same answer as `down`
 * `pause` — the survivor's receive loops stop reporting (`Router.Pause`, a test facility): failures
   that happen from now on leave stale entries; no effect on the model state
 * `kill <p>` — the peer stops and nobody notices yet: its connections become stale entries
 * `up <p>` — something listens at the peer's address again
 * `conns <p>` — number of registered connections with p
+* `tni <k> <parent|-> <children|->` — tree-node instance number k of the survivor, with that parent
+  and these children, kept until the end of the case
+* `tcfg <k>` — `SetConfig` on instance k (`err` the second time)
+* `tdone <k>` — `Done()`: the instance is closing from now on
+* `tsend <k> <sendto|parent|children|parallel|multicast|broadcast> <dests|->` — the entry point on
+  instance k (`sendto -`: nil destination); answer `<ok|err:k> delivered=<d>`, configuration
+  messages counted
 -/
-def step (s : State) (toks : List String) : State × String :=
+def step (d : State) (toks : List String) : State × String :=
+  let s := d.core
   match toks with
   | ["open", tr, ups] =>
-    match (if tr = "tcp" then some Transport.tcp else if tr = "local" then some .loc else none), Util.natList ups with
+    match (if tr = "tcp" ∨ tr = "tls" then some Transport.tcp else if tr = "local" then some .loc else none), Util.natList ups with
     | some t, some ups =>
-      ({ dpc := dialsPerConnect Generated.maxRetryConnect t, up := ups }, "ok")
-    | _, _ => (s, "bad-op")
+      ({ core := { dpc := dialsPerConnect Generated.maxRetryConnect t,
+                   wpc := waitsPerConnect Generated.maxRetryConnect t, up := ups } }, "ok")
+    | _, _ => (d, "bad-op")
   | ["handler", h] =>
     match h.toNat? with
-    | some h => ((C09.step s (.addHandler h)).1, "ok")
-    | none => (s, "bad-op")
+    | some h => ({ d with core := (C09.step s (.addHandler h)).1 }, "ok")
+    | none => (d, "bad-op")
+  | ["rhandler", h, q] =>
+    match h.toNat?, q.toNat? with
+    | some h, some q => ({ d with core := (C09.step s (.addHandler h)).1, rh := d.rh ++ [(h, q)] }, "ok")
+    | _, _ => (d, "bad-op")
   | ["send", e, ds, n] =>
-    match parseEntry e, Util.natList ds, n.toNat? with
-    | some e, some ds, some n =>
-      if n = 0 then (s, "bad-op") else
-      let r := runEntry s e ds n
-      (r.1, (if r.2.1 = 0 then "ok" else s!"err:{r.2.1}") ++ s!" delivered={r.2.2}")
-    | _, _, _ => (s, "bad-op")
+    match Util.natList ds, n.toNat? with
+    | some ds, some n =>
+      if n = 0 ∧ e ≠ "router" then (d, "bad-op") else
+      match runEntry s e ds n with
+      | some (s', errs) => ({ d with core := s' }, answer s s' errs)
+      | none => (d, "bad-op")
+    | _, _ => (d, "bad-op")
+  | ["selfsend", n] =>
+    match n.toNat? with
+    | some n => (d, if n = 0 then "err:1 delivered=0" else s!"ok delivered={n}")
+    | none => (d, "bad-op")
   | ["par", e, ds, hp] =>
-    match parseEntry e, Util.natList ds, hp.toNat? with
-    | some e, some ds, some hp =>
-      let r := ds.foldl (fun (acc : St × Nat) d =>
-        let x := runEntry acc.1 e [d] 1
-        (x.1, acc.2 + x.2.1)) (s, 0)
-      let hres := runEntry r.1 .routerSend [hp] 1
-      (hres.1, s!"err:{r.2}|" ++ (if hres.2.1 = 0 then "ok" else s!"err:{hres.2.1}") ++ s!" delivered={hres.2.2}")
-    | _, _, _ => (s, "bad-op")
-  | ["down", p] | ["freeze", p] =>
+    match Util.natList ds, hp.toNat? with
+    | some ds, some hp =>
+      if e = "router" ∨ e = "raw" ∨ e = "sendto" then
+        let r := ds.foldl (fun (acc : St × Nat) x =>
+          match runEntry acc.1 e [x] 1 with
+          | some (s', errs) => (s', acc.2 + errs)
+          | none => acc) (s, 0)
+        match runEntry r.1 "router" [hp] 1 with
+        | some (s', errs) => ({ d with core := s' }, s!"err:{r.2}|" ++ answer r.1 s' errs)
+        | none => (d, "bad-op")
+      else (d, "bad-op")
+    | _, _ => (d, "bad-op")
+  | ["down", p] | ["freeze", p] | ["hang", p] =>
     match p.toNat? with
-    | some p =>
-      let s1 := (C09.step s (.peerDown p)).1
-      let ids := (s1.conns.filter (·.peer == p)).map (·.id)
-      let s2 := ids.foldl (fun st cid => (C09.step st (.detect cid)).1) s1
-      let newCalls := s2.calls.drop s.calls.length
-      ({ s2 with calls := [] },
-        if newCalls.isEmpty then "-" else ",".intercalate (newCalls.map fun (h, q) => s!"{h}>{q}"))
-    | none => (s, "bad-op")
-  | ["pause"] => (s, "ok")
+    | some p => lose d p
+    | none => (d, "bad-op")
+  | ["pause"] => (d, "ok")
   | ["kill", p] =>
     match p.toNat? with
-    | some p => ((C09.step s (.peerDown p)).1, "-")
-    | none => (s, "bad-op")
+    | some p => ({ d with core := (C09.step s (.peerDown p)).1 }, "-")
+    | none => (d, "bad-op")
   | ["up", p] =>
     match p.toNat? with
-    | some p => ((C09.step s (.peerUp p)).1, "ok")
-    | none => (s, "bad-op")
+    | some p => ({ d with core := (C09.step s (.peerUp p)).1 }, "ok")
+    | none => (d, "bad-op")
   | ["conns", p] =>
     match p.toNat? with
-    | some p => (s, toString (s.conns.filter (·.peer == p)).length)
-    | none => (s, "bad-op")
-  | _ => (s, "bad-op")
+    | some p => (d, toString (s.conns.filter (·.peer == p)).length)
+    | none => (d, "bad-op")
+  | ["tni", k, par, ch] =>
+    match k.toNat?, Util.natList par, Util.natList ch with
+    | some k, some par, some ch =>
+      if par.length ≤ 1 ∧ (d.tnis.lookup k).isNone then
+        (setTni d k { parent := par.head?, children := ch }, "ok")
+      else (d, "bad-op")
+    | _, _, _ => (d, "bad-op")
+  | ["tcfg", k] =>
+    match k.toNat?.bind (fun k => (d.tnis.lookup k).map (k, ·)) with
+    | some (k, t) =>
+      if t.config then (d, "err") else (setTni d k { t with config := true }, "ok")
+    | none => (d, "bad-op")
+  | ["tdone", k] =>
+    match k.toNat?.bind (fun k => (d.tnis.lookup k).map (k, ·)) with
+    | some (k, t) => (setTni d k { t with closing := true }, "ok")
+    | none => (d, "bad-op")
+  | ["tsend", k, e, ds] =>
+    match k.toNat?.bind (fun k => (d.tnis.lookup k).map (k, ·)), Util.natList ds with
+    | some (k, t), some ds =>
+      let o? : Option (Out St) :=
+        match e, ds with
+        | "sendto", [] => some (sendTo rsend s t none)
+        | "sendto", [x] => some (sendTo rsend s t (some x))
+        | "parent", [] => some (sendToParent rsend s t)
+        | "children", [] => some (sendToChildren rsend s t)
+        | "parallel", [] => some (sendToChildrenInParallel rsend s t t.children)
+        | "multicast", ds => some (multicast rsend s t ds)
+        | "broadcast", [] => some (broadcast rsend s t)
+        | _, _ => none
+      match o? with
+      | some o => (setTni { d with core := o.st } k o.tni, answer s o.st o.errs)
+      | none => (d, "bad-op")
+    | _, _ => (d, "bad-op")
+  | _ => (d, "bad-op")
 
 end Drv
 
